@@ -145,8 +145,9 @@ impl Stats {
         for (k, v) in o.labels {
             *self.labels.entry(k).or_insert(0) += v;
         }
+        // all of them are kept here (a few per worker and stage); `finish` picks a few per stage
         for s in o.samples {
-            if self.samples.len() < 10 {
+            if self.samples.len() < 2000 {
                 self.samples.push(s);
             }
         }
@@ -799,6 +800,29 @@ impl Global {
                 println!("{}: replayed case holds (no violation)", self.id);
             }
             return code;
+        }
+        // at most 12 samples, spread over the stages (first one of every stage, then second ones, ...)
+        {
+            let all = std::mem::take(&mut self.stats.samples);
+            let mut by_stage: Vec<(String, Vec<Value>)> = vec![];
+            for s in all {
+                let st = s.get("stage").and_then(|v| v.as_str()).unwrap_or("").to_string();
+                match by_stage.iter_mut().find(|(k, _)| *k == st) {
+                    Some((_, v)) => v.push(s),
+                    None => by_stage.push((st, vec![s])),
+                }
+            }
+            let mut round = 0;
+            while self.stats.samples.len() < 12 && by_stage.iter().any(|(_, v)| v.len() > round) {
+                for (_, v) in by_stage.iter() {
+                    if self.stats.samples.len() < 12 {
+                        if let Some(x) = v.get(round) {
+                            self.stats.samples.push(x.clone());
+                        }
+                    }
+                }
+                round += 1;
+            }
         }
         if self.stats.samples.is_empty() {
             self.stats.samples.push(json!("no sample captured"));
